@@ -35,7 +35,7 @@ func mutexFieldOf(v ssa.Value) *types.Var {
 // fieldFuncValues: every function stored anywhere in the module into the func-typed field fv.
 func fieldFuncValues(w *World, fv *types.Var) []*ssa.Function {
 	var out []*ssa.Function
-	for fn := range allModuleFuncs(w, w.SSA()) {
+	for _, fn := range sortedModuleFuncs(w, w.SSA()) {
 		allInstrs(fn, func(in ssa.Instruction) {
 			st, ok := in.(*ssa.Store)
 			if !ok {
@@ -124,7 +124,7 @@ func ruleNoReentrantLock(w *World, r *Report, rule string, inScope func(pkgPath 
 		pos string
 	}
 	byField := map[string]*res{}
-	for fn := range allModuleFuncs(w, w.SSA()) {
+	for _, fn := range sortedModuleFuncs(w, w.SSA()) {
 		f0 := fn
 		for f0.Parent() != nil {
 			f0 = f0.Parent()
@@ -235,7 +235,7 @@ func ruleLockOrder(w *World, r *Report, rule string, inScope func(pkgPath string
 	type edge struct{ from, to *types.Var }
 	edges := map[edge]string{}
 	fields := map[*types.Var]bool{}
-	for fn := range allModuleFuncs(w, w.SSA()) {
+	for _, fn := range sortedModuleFuncs(w, w.SSA()) {
 		f0 := fn
 		for f0.Parent() != nil {
 			f0 = f0.Parent()
@@ -418,7 +418,7 @@ func bufferedLocalChan(ch ssa.Value) bool {
 			}
 			fv := fieldVarOf(fa)
 			stores := 0
-			for fn := range allModuleFuncs(lockWorld, lockWorld.SSA()) {
+			for _, fn := range sortedModuleFuncs(lockWorld, lockWorld.SSA()) {
 				allInstrs(fn, func(in ssa.Instruction) {
 					st, ok := in.(*ssa.Store)
 					if !ok {
@@ -479,7 +479,7 @@ func ruleNoWaitUnderLock(w *World, r *Report, rule string, isWideLock func(m *ty
 		pos string
 	}
 	byField := map[string]*res{}
-	for fn := range allModuleFuncs(w, w.SSA()) {
+	for _, fn := range sortedModuleFuncs(w, w.SSA()) {
 		fields := map[*types.Var]bool{}
 		for _, c := range callsIn(fn) {
 			f := sCallee(c)
@@ -812,7 +812,7 @@ func heldWithCallers(w *World, in ssa.Instruction, isMutexVal func(ssa.Value) bo
 		return nuse > 0 && okAll
 	}
 	n := 0
-	for caller := range allModuleFuncs(w, w.SSA()) {
+	for _, caller := range sortedModuleFuncs(w, w.SSA()) {
 		for _, c := range callsIn(caller) {
 			if sCallee(c) == obj && !c.Common().IsInvoke() {
 				n++
@@ -871,7 +871,7 @@ func ruleFlagBrackets(w *World, r *Report, rule string, inScope func(pkgPath str
 		return ev{}, false
 	}
 	n := 0
-	for fn := range allModuleFuncs(w, w.SSA()) {
+	for _, fn := range sortedModuleFuncs(w, w.SSA()) {
 		f0 := fn
 		for f0.Parent() != nil {
 			f0 = f0.Parent()
@@ -1112,7 +1112,7 @@ func muApply(w *World, ev ssa.Instruction, key muKey, depth int) (int, bool) {
 func ruleUnlockHeld(w *World, r *Report, rule string, inScope func(pkgPath string) bool) {
 	n := 0
 	var fns []*ssa.Function
-	for fn := range allModuleFuncs(w, w.SSA()) {
+	for _, fn := range sortedModuleFuncs(w, w.SSA()) {
 		f0 := fn
 		for f0.Parent() != nil {
 			f0 = f0.Parent()
